@@ -70,6 +70,7 @@ fn compute_must(w: &mut World) {
         s.must = None;
         s.enabled_at_dispatch_start = s.st == St::Enabled;
         s.cbs_in_dispatch = 0;
+        s.ping_cbs_in_dispatch = 0;
         s.life = LifeDispatch::default();
         if s.st != St::Enabled {
             continue;
@@ -335,7 +336,13 @@ fn after_ok_dispatch(timeout: Option<Duration>, elapsed: Duration) {
             let r = &w.idles[i];
             if r.ran == 0 && !r.cancelled && r.from_idle_in_dispatch != Some(d) {
                 let id = r.id;
-                w.alarm("C13.first_ok_dispatch", "idle-not-run", format!("idle {} (inserted in dispatch {}) did not run in the successful dispatch {}", id, r.inserted_dispatch, d));
+                let in_cb = r.in_dispatch || r.from_idle_in_dispatch.is_some();
+                let ins = r.inserted_dispatch;
+                w.alarm("C13.first_ok_dispatch", "idle-not-run", format!("idle {} (inserted in dispatch {}) did not run in the successful dispatch {}", id, ins, d));
+                if in_cb {
+                    // insert_idle() from inside a callback has the effect it has outside a dispatch
+                    w.alarm("C08.effect_as_outside", "idle-inserted-in-callback-not-run", format!("idle {} was inserted from inside a callback of dispatch {} and did not run in the successful dispatch {}", id, ins, d));
+                }
             }
         }
     });
